@@ -97,7 +97,7 @@ SetPos(st, r, c, scrollOk) ==
 
 -----------------------------------------------------------------------------
 (* one plain character at the cursor *)
-WriteChar(st, ch) ==
+WriteCharFull(st, ch) ==
     LET \* the pending overflow materialises: go to column 1 of the next row
         a0 == IF st.ovf THEN [st EXCEPT !.col = st.col + 1, !.ovf = FALSE] ELSE st
         a1 == IF a0.col > a0.w
@@ -111,6 +111,12 @@ WriteChar(st, ch) ==
               ELSE IF a3.wrap[a3.row] THEN [a3 EXCEPT !.row = a3.row + 1, !.col = 1]
               ELSE [a3 EXCEPT !.ovf = TRUE]
     IN  WrapAround(a4, TRUE)
+
+\* the common case (cursor inside the window, not in the last column): TextScreen_MC checks that this shortcut
+\* equals WriteCharFull in every reachable state; it only makes trace validation of long strings cheaper
+Simple(st) == ~st.ovf /\ ~st.bra /\ st.col >= 1 /\ st.col < st.w /\ st.row >= st.top /\ st.row <= st.bot
+WriteChar(st, ch) ==
+    IF Simple(st) THEN [st EXCEPT !.buf[st.row][st.col] = ch, !.col = st.col + 1] ELSE WriteCharFull(st, ch)
 
 RECURSIVE Spaces(_, _)
 Spaces(st, n) == IF n <= 0 THEN st ELSE Spaces(WriteChar(st, Blank), n - 1)
@@ -137,7 +143,9 @@ RECURSIVE Seg(_, _, _, _)
 Seg(st, s, i, start) ==
     IF i > Len(s) THEN st
     ELSE LET s0 == IF start THEN [st EXCEPT !.wrap[st.row] = FALSE] ELSE st
-         IN  Seg(ConsoleChar(s0, s[i]), s, i + 1, s[i] \in {10, 13})
+             nx == ConsoleChar(s0, s[i])
+         IN  \* (the test only makes TLC evaluate nx before descending, which keeps its evaluation stack shallow)
+             IF nx.row = nx.row THEN Seg(nx, s, i + 1, s[i] \in {10, 13}) ELSE st
 ConsoleWrite(st, s) == Seg(st, s, 1, TRUE)
 
 \* printed width of the first line of s, and whether s contains a line end
